@@ -312,12 +312,14 @@ Fixpoint run_spec (st : sstate) (ops : list op) : list out :=
 
 (* ================= db/memory, transcribed ================= *)
 (* memory/batch.go keyValue *)
-Record kvd := { kv_key : key; kv_val : val; kv_del : bool }.
+Record kvd := { kv_key : key; kv_val : val; kv_del : bool;
+                kv_range : bool; kv_end : key }.      (* range delete of [kv_key, kv_end) *)
 
-(* writeMap is a Go map: modelled as a sorted association list key -> kvd *)
-Definition wmap := list (key * kvd).
+(* writeMap is a Go map key -> index of the latest point write; the model keeps the position together
+   with (a copy of) the write it denotes — writes are immutable, so b.writes[idx] is that copy. *)
+Definition wmap := list (key * (nat * kvd)).
 
-Fixpoint wm_put (m : wmap) (k : key) (x : kvd) : wmap :=
+Fixpoint wm_put (m : wmap) (k : key) (x : nat * kvd) : wmap :=
   match m with
   | [] => [(k, x)]
   | (k', x') :: r =>
@@ -328,17 +330,20 @@ Fixpoint wm_put (m : wmap) (k : key) (x : kvd) : wmap :=
       end
   end.
 
-Fixpoint wm_get (m : wmap) (k : key) : option kvd :=
+Fixpoint wm_get (m : wmap) (k : key) : option (nat * kvd) :=
   match m with
   | [] => None
   | (k', x) :: r => if keqb k k' then Some x else wm_get r k
   end.
 
-Record mbatch := { mb_writes : list kvd; mb_map : wmap; mb_size : N }.
+(* mb_ranges: the recorded range deletes with their positions, NEWEST FIRST (the Go loop walks
+   b.ranges from the back) *)
+Record mbatch := { mb_writes : list kvd; mb_map : wmap; mb_ranges : list (nat * kvd); mb_size : N }.
 
 (* batch.Write: replay the ordered write log *)
 Definition m_apply (s : store) (w : kvd) : store :=
-  if kv_del w then s_del s (kv_key w) else s_put s (kv_key w) (kv_val w).
+  if kv_range w then s_delrange s (kv_key w) (kv_end w)
+  else if kv_del w then s_del s (kv_key w) else s_put s (kv_key w) (kv_val w).
 Definition m_replay (ws : list kvd) (s : store) : store := fold_left m_apply ws s.
 
 (* memory/iterator.go *)
@@ -396,45 +401,56 @@ Definition mwith_db (st : mstate) d := {| m_db := d; m_batches := m_batches st; 
 Definition mwith_snaps (st : mstate) x := {| m_db := m_db st; m_batches := m_batches st; m_snaps := x; m_iters := m_iters st |}.
 Definition mwith_iters (st : mstate) x := {| m_db := m_db st; m_batches := m_batches st; m_snaps := m_snaps st; m_iters := x |}.
 
-(* batch.Get / batch.Has: writeMap first, then the database *)
+(* batch.lookup: does the batch itself decide the key?  Some None = deleted, Some (Some v) = value *)
+Fixpoint covered_later (rs : list (nat * kvd)) (idx : option nat) (k : key) : bool :=
+  match rs with
+  | [] => false
+  | (r, w) :: rs' =>
+      if (match idx with Some i => Nat.ltb r i | None => false end) then false      (* break *)
+      else if in_range (kv_key w) (kv_end w) k then true
+      else covered_later rs' idx k
+  end.
+
+Definition mb_lookup (b : mbatch) (k : key) : option (option val) :=
+  let e := wm_get (mb_map b) k in
+  if covered_later (mb_ranges b) (match e with Some (i, _) => Some i | None => None end) k then Some None
+  else match e with
+       | Some (_, w) => Some (if kv_del w then None else Some (kv_val w))
+       | None => None
+       end.
+
+(* batch.Get / batch.Has: the batch's own writes first, then the database *)
 Definition mb_get (b : mbatch) (d : store) (k : key) : option val :=
-  match wm_get (mb_map b) k with
-  | Some x => if kv_del x then None else Some (kv_val x)
+  match mb_lookup b k with
+  | Some r => r
   | None => s_get d k
   end.
 
 Definition mb_put (b : mbatch) (k : key) (v : val) : mbatch :=
-  let x := {| kv_key := k; kv_val := v; kv_del := false |} in
-  {| mb_writes := mb_writes b ++ [x]; mb_map := wm_put (mb_map b) k x; mb_size := mb_size b + klen k + klen v |}.
+  let x := {| kv_key := k; kv_val := v; kv_del := false; kv_range := false; kv_end := [] |} in
+  {| mb_writes := mb_writes b ++ [x]; mb_map := wm_put (mb_map b) k (length (mb_writes b), x);
+     mb_ranges := mb_ranges b; mb_size := mb_size b + klen k + klen v |}.
 
 Definition mb_delete (b : mbatch) (k : key) : mbatch :=
-  let x := {| kv_key := k; kv_val := []; kv_del := true |} in
-  {| mb_writes := mb_writes b ++ [x]; mb_map := wm_put (mb_map b) k x; mb_size := mb_size b + klen k |}.
+  let x := {| kv_key := k; kv_val := []; kv_del := true; kv_range := false; kv_end := [] |} in
+  {| mb_writes := mb_writes b ++ [x]; mb_map := wm_put (mb_map b) k (length (mb_writes b), x);
+     mb_ranges := mb_ranges b; mb_size := mb_size b + klen k |}.
 
-(* batch.DeleteRange: iterate the overlay (copy of db + replayed writes) with a nil prefix,
-   Seek(start), delete every key until one is >= end *)
-Fixpoint mb_delrange_loop (kvs : list (key * val)) (e : key) (b : mbatch) : mbatch :=
-  match kvs with
-  | [] => b
-  | (k, _) :: r => if kle e k then b else mb_delrange_loop r e (mb_delete b k)
-  end.
+(* batch.DeleteRange (after "fix: db/memory batch records range deletes like Pebble"): one recorded
+   range tombstone, no effect on the size *)
+Definition mb_delrange (b : mbatch) (a e : key) : mbatch :=
+  let x := {| kv_key := a; kv_val := []; kv_del := true; kv_range := true; kv_end := e |} in
+  {| mb_writes := mb_writes b ++ [x]; mb_map := mb_map b;
+     mb_ranges := (length (mb_writes b), x) :: mb_ranges b; mb_size := mb_size b |}.
 
-Definition mb_delrange (b : mbatch) (d : store) (a e : key) : mbatch :=
-  let overlay := m_replay (mb_writes b) d in
-  let kvs := mi_kvs (mem_iter overlay [] false) in
-  match seek_idx kvs a 0 with
-  | Some j => mb_delrange_loop (skipn j kvs) e b
-  | None => b
-  end.
-
-Definition mb_apply (b : mbatch) (d : store) (w : wop) : mbatch :=
+Definition mb_apply (b : mbatch) (w : wop) : mbatch :=
   match w with
   | WPut k v => mb_put b k v
   | WDel k => mb_delete b k
-  | WDelRange a e => mb_delrange b d a e
+  | WDelRange a e => mb_delrange b a e
   end.
 
-Definition mb_empty : mbatch := {| mb_writes := []; mb_map := []; mb_size := 0 |}.
+Definition mb_empty : mbatch := {| mb_writes := []; mb_map := []; mb_ranges := []; mb_size := 0 |}.
 
 Definition msrc_store (st : mstate) (s : src) : option store :=
   match s with
@@ -457,7 +473,7 @@ Definition mem_step (st : mstate) (o : op) : mstate * out :=
   | NewBatch _ => (mwith_batches st (m_batches st ++ [Some mb_empty]), OHandle (length (m_batches st)))
   | BW h w =>
       match lookup (m_batches st) h with
-      | Some b => (mwith_batches st (set_nth (m_batches st) h (Some (mb_apply b (m_db st) w))), OOk)
+      | Some b => (mwith_batches st (set_nth (m_batches st) h (Some (mb_apply b w))), OOk)
       | None => (st, OErr)
       end
   | BGet h k =>
@@ -519,7 +535,7 @@ Definition mem_step (st : mstate) (o : op) : mstate * out :=
       | None => (st, OErr)
       end
   | Helper ix ws rd fail =>
-      let b := fold_left (fun b w => mb_apply b (m_db st) w) ws mb_empty in
+      let b := fold_left mb_apply ws mb_empty in
       let o := if fail then OErr
                else match rd with
                     | Some k => if ix then OGet (mb_get b (m_db st) k) else OOk
@@ -538,7 +554,6 @@ Fixpoint run_mem (st : mstate) (ops : list op) : list out :=
 (* Operation sequences on which db/memory is proved to coincide with the contract. Each clause
    that fails names one of the divergence shapes that the differential reports as a finding. *)
 Inductive shape :=
-| ShBatchRange      (* DeleteRange recorded in a batch (memory expands it eagerly) *)
 | ShNonIndexedRead  (* read through a batch that was not created as an indexed batch *)
 | ShBadHandle.      (* use of a closed or unknown handle *)
 
@@ -548,7 +563,7 @@ Definition strict_step (st : sstate) (o : op) : option shape :=
   match o with
   | BW h w => match lookup (s_batches st) h with
               | None => Some ShBadHandle
-              | Some _ => if wop_is_range w then Some ShBatchRange else None
+              | Some _ => None
               end
   | BGet h _ | BHas h _ =>
       match lookup (s_batches st) h with
@@ -573,7 +588,6 @@ Definition strict_step (st : sstate) (o : op) : option shape :=
       | Some _ => None
       end
   | IClose h => match lookup (s_iters st) h with None => Some ShBadHandle | Some _ => None end
-  | Helper _ ws _ _ => if existsb wop_is_range ws then Some ShBatchRange else None
   | _ => None
   end.
 
